@@ -52,6 +52,16 @@ def run(run):
     run.extra["swept_states"] = (1 << 31) - 2
     sample_trace(run, tr, 4)
     run.add_sample(read_line(tr, n))
+    # the function depends on its argument alone - not on the process environment: the vectors again with every variable the
+    # library's sources ask getenv() for set to a number (the names are scanned from the tree under test)
+    import re, glob
+    names_env = set()
+    for src in glob.glob(os.path.join(REPO, "librfn", "*.c")) + glob.glob(os.path.join(REPO, "include", "librfn", "*.h")):
+        names_env |= set(re.findall(r'getenv\s*\(\s*"([A-Za-z_][A-Za-z0-9_]*)"', open(src, errors="replace").read()))
+    for val in ("42", "1"):
+        tre = exec_script(run, exe, [], "Vectors %d %d\n" % (run.seed + 2, 500), run.path("rand-env%s.ndjson" % val), "vectors with environment",
+                          timeout=300, env={n: val for n in names_env})
+        check_trace(run, "vectors-with-environment", "TraceRand", "TraceRand.cfg", tre, timeout=600)
     # whole-program builds: the generator compiled into the caller's translation unit (-include rand.c) and with -flto, at -O2:
     # the optimiser sees both sides of the call, so anything the source only gets away with across a call boundary shows
     for vtag, cc, srcs in (("unity", ["gcc", "-std=gnu11", "-O2", "-g", "-DLIBRFN_VERIF", nflag, "-include", os.path.join(REPO, "librfn/rand.c")], []),
